@@ -1,19 +1,23 @@
 //! C02/C03 agent side: the REAL `MapLane<i32, i32, BTreeMap>` (update / remove / clear / sync / take / drop /
 //! write_to_buffer) through the `verif_hooks` wrappers; frames decoded with the real map-lane response decoder.
-use std::collections::BTreeMap;
+use std::collections::{BTreeMap, HashMap};
 
 use bytes::BytesMut;
 use svh::{parse_args, Mode, Rng, Trace};
 use swimos_agent::agent_model::WriteResult;
 use swimos_agent::lanes::{LaneItem, MapLane};
 use swimos_agent::verif::lanes::{map_clear, map_remove, map_sync, map_update};
-use swimos_agent::verif::queues::{drop_or_take, DropOrTake};
+use swimos_agent::verif::queues::{drop_or_take, DropOrTake, MapOps};
 use swimos_agent_protocol::encoding::lane::RawMapLaneResponseDecoder;
 use swimos_agent_protocol::{LaneResponse, MapOperation};
 use tokio_util::codec::Decoder;
 use uuid::Uuid;
 
-type Lane = MapLane<i32, i32, BTreeMap<i32, i32>>;
+/// The lane under test: BTreeMap-backed (ordered keys) or HashMap-backed (take/drop must sort the keys by structure).
+enum AnyLane {
+    Tree(MapLane<i32, i32, BTreeMap<i32, i32>>),
+    Hash(MapLane<i32, i32, HashMap<i32, i32>>),
+}
 
 fn txt(b: &[u8]) -> String {
     String::from_utf8_lossy(b).to_string()
@@ -27,7 +31,18 @@ fn render_op(op: &MapOperation<BytesMut, BytesMut>) -> String {
     }
 }
 
-fn exec(lane: &Lane, op: &str) -> String {
+fn exec_any(lane: &AnyLane, op: &str) -> String {
+    match lane {
+        AnyLane::Tree(l) => exec(l, op),
+        AnyLane::Hash(l) => exec(l, op),
+    }
+}
+
+fn exec<M>(lane: &MapLane<i32, i32, M>, op: &str) -> String
+where
+    M: MapOps<i32, i32>,
+    for<'a> &'a M: IntoIterator<Item = (&'a i32, &'a i32)>,
+{
     let p: Vec<&str> = op.split_whitespace().collect();
     match p.as_slice() {
         ["upd", k, v] => {
@@ -56,10 +71,12 @@ fn exec(lane: &Lane, op: &str) -> String {
             "ok".into()
         }
         ["map"] => lane.get_map(|m| {
-            if m.is_empty() {
+            let mut es: Vec<(i32, i32)> = m.into_iter().map(|(k, v)| (*k, *v)).collect();
+            es.sort();
+            if es.is_empty() {
                 "-".to_string()
             } else {
-                m.iter().map(|(k, v)| format!("{}={}", k, v)).collect::<Vec<_>>().join(",")
+                es.iter().map(|(k, v)| format!("{}={}", k, v)).collect::<Vec<_>>().join(",")
             }
         }),
         ["write"] => {
@@ -100,13 +117,16 @@ fn exec(lane: &Lane, op: &str) -> String {
 }
 
 fn run_case(t: &mut Trace, ops: &[String]) {
-    let mut lane: Option<Lane> = None;
+    let mut lane: Option<AnyLane> = None;
     for op in ops {
         if op == "new" {
-            lane = Some(MapLane::new(0, BTreeMap::new()));
+            lane = Some(AnyLane::Tree(MapLane::new(0, BTreeMap::new())));
+            t.op(op, "ok");
+        } else if op == "new hash" {
+            lane = Some(AnyLane::Hash(MapLane::new(0, HashMap::new())));
             t.op(op, "ok");
         } else if let Some(l) = lane.as_ref() {
-            t.op(op, exec(l, op));
+            t.op(op, exec_any(l, op));
         } else {
             t.op(op, "bad-op");
         }
@@ -119,7 +139,11 @@ fn main() {
             let mut t = Trace::create(&out);
             let mut rng = Rng::new(seed);
             for c in 0..cases {
-                let mut ops = vec!["new".to_string()];
+                // one case in four: HashMap backing, keys whose decimal text order differs from their numeric order,
+                // no sync (the key order of a HashMap snapshot is not defined)
+                let hash = rng.chance(1, 4);
+                let keys: [u64; 6] = if hash || rng.chance(1, 3) { [2, 10, 33, 100, 7, 21] } else { [0, 1, 2, 3, 4, 5] };
+                let mut ops = vec![if hash { "new hash".to_string() } else { "new".to_string() }];
                 let len = rng.range(2, 40);
                 let nkeys = rng.range(1, 5);
                 let writes = [25u64, 45, 65][rng.below(3) as usize];
@@ -133,12 +157,12 @@ fn main() {
                         let x = rng.below(100);
                         if x < 50 {
                             v += 1;
-                            ops.push(format!("upd {} {}", rng.below(nkeys), v));
+                            ops.push(format!("upd {} {}", keys[rng.below(nkeys) as usize], v));
                         } else if x < 68 {
-                            ops.push(format!("rem {}", rng.below(nkeys + 1)));
+                            ops.push(format!("rem {}", keys[rng.below(nkeys + 1) as usize]));
                         } else if x < 75 {
                             ops.push("clr".into());
-                        } else if x < 90 {
+                        } else if x < 90 && !hash {
                             // every sync request comes from a remote that has none outstanding (fresh id)
                             syncing.push(syncing.len() as u64 + 1);
                             ops.push(format!("sync {}", syncing.len()));
